@@ -238,6 +238,107 @@ def structural_checks(ctx, members, alone):
             rec.violation("C13:legitimate-combination-refused:" + type(e).__name__, spec=spec, error=repr(e)[:200])
 
 
+PREFIX_GOOD = ["s", "sc", "Tl", "abc", "Z"]
+PREFIX_BAD = ["s1", "sc2", "sc_", "1s", "a1b", "s-c", "s c", "s.", "_"]
+HIST_TEMPLATES = ["{0}Red", "({0}Event-context, ({0}Red)), ({0}Event-context, ({0}Blue))", "({0}Event-context, ({0}Red)), {0}Blue",
+                  "{0}Zzqunknown", "({0}Red, {0}Red)", "{0}Item/Zzqext-1, ({0}Duration/3 s, ({0}Blue))"]
+
+
+def prefix_checks(ctx):
+    """Prefix boundary values through every way of giving a prefix, and E2 histories of prefix changes on one object."""
+    from hed.schema import load_schema_version, load_schema
+    from hed.schema.hed_schema_group import HedSchemaGroup
+    from hed.errors.exceptions import HedFileError
+    rec = ctx.rec
+    lib_path = os.path.join(core.SCHEMA_DATA, "HED_score_1.1.0.xml")
+    ways = {
+        "version-list": lambda p: load_schema_version(["8.2.0", f"{p}:score_1.1.0"]),
+        "version-string": lambda p: load_schema_version(f"{p}:score_1.1.0"),
+        "load-file-no-colon": lambda p: load_schema(lib_path, schema_namespace=p),
+        "load-file-colon": lambda p: load_schema(lib_path, schema_namespace=p + ":"),
+        "set-prefix-no-colon": lambda p: load_schema(lib_path).set_schema_prefix(p),
+        "set-prefix-colon": lambda p: load_schema(lib_path).set_schema_prefix(p + ":"),
+    }
+    for way, fn in ways.items():
+        for p in PREFIX_GOOD + PREFIX_BAD:
+            rec.n("evaluations")
+            rec.n("transitions")
+            rec.n("distinct_nontrivial")
+            good = p in PREFIX_GOOD
+            try:
+                fn(p)
+                if not good:
+                    rec.violation("C13:prefix:non-alphabetic-prefix-accepted:" + way, prefix=p)
+                rec.outcome("prefix-accepted")
+            except HedFileError as e:
+                if good:
+                    rec.violation("C13:prefix:alphabetic-prefix-refused:" + way, prefix=p, error=repr(e)[:200])
+                rec.outcome("prefix-refused")
+            except Exception as e:
+                rec.violation(f"C13:prefix:wrong-exception:{type(e).__name__}:{way}", prefix=p, error=repr(e)[:200])
+    # histories on one schema object: validate / change the prefix, then the prefixed annotations must be judged like the
+    # unprefixed ones by a freshly loaded copy
+    std_path = os.path.join(core.SCHEMA_DATA, "HED8.2.0.xml")
+    fresh = load_schema(std_path)
+    want = {t: codes(fresh, t.format("")) for t in HIST_TEMPLATES}
+    ops = ["validate", "prefix:tl", "prefix:sc", "prefix:", "group", "version-load"]
+    depth = ctx.pick(3, 4)
+    for d in range(1, depth + 1):
+        for hist in itertools.product(ops, repeat=d):
+            rec.n("evaluations")
+            rec.n("transitions", d)
+            rec.n("distinct_nontrivial")
+            rec.state(("prefix-history", tuple(sorted(set(hist)))))
+            try:
+                S = load_schema(std_path)
+                ns = ""
+                for op in hist:
+                    if op == "validate":
+                        for t in HIST_TEMPLATES:
+                            codes(S, t.format(ns))
+                    elif op.startswith("prefix:"):
+                        S.set_schema_prefix(op[7:])
+                        ns = op[7:] + ":" if op[7:] else ""
+                    elif op == "group":
+                        if ns:
+                            other = load_schema(lib_path, schema_namespace="zz" if ns != "zz:" else "yy")
+                            G = HedSchemaGroup([S, other])
+                            for t in HIST_TEMPLATES:
+                                codes(G, t.format(ns))
+                    elif op == "version-load":
+                        # the cached standard schema is shared with later version loads: use it, then load a prefixed one
+                        codes(load_schema_version("8.2.0"), HIST_TEMPLATES[1].format(""))
+                        P = load_schema_version("tl:8.2.0")
+                        got = {t: codes(P, t.format("tl:")) for t in HIST_TEMPLATES}
+                        if got != want:
+                            bad = next(t for t in HIST_TEMPLATES if got[t] != want[t])
+                            rec.violation("C13:history:version-load-after-use-judges-differently", history=list(hist),
+                                          text=bad.format("tl:"), alone=want[bad], prefixed=got[bad])
+                got = {t: codes(S, t.format(ns)) for t in HIST_TEMPLATES}
+            except Exception as e:
+                rec.violation("C13:history:raises:" + type(e).__name__, history=list(hist), error=repr(e)[:200])
+                continue
+            if got != want:
+                bad = next(t for t in HIST_TEMPLATES if got[t] != want[t])
+                rec.violation("C13:history:prefixed-judged-differently-after-history", history=list(hist), prefix=ns,
+                              text=bad.format(ns), alone=want[bad], prefixed=got[bad])
+            rec.outcome("history-" + ("ok" if got == want else "differs"))
+    # an unmerged partnered library is built on the (cached, possibly used) standard schema: same verdicts under a prefix
+    for lib in ("testlib_2.0.0", "score_1.1.0"):
+        rec.n("evaluations")
+        try:
+            codes(load_schema_version("8.2.0"), HIST_TEMPLATES[1].format(""))
+            alone_lib = load_schema_version(lib)
+            G = load_schema_version(["8.2.0", "tl:" + lib])
+            for t in HIST_TEMPLATES:
+                a, b = codes(alone_lib, t.format("")), codes(G, t.format("tl:"))
+                if a != b:
+                    rec.violation("C13:history:library-on-used-standard-judges-differently", library=lib, text=t.format("tl:"),
+                                  alone=a, prefixed=b)
+        except Exception as e:
+            rec.violation("C13:history:raises:" + type(e).__name__, library=lib, error=repr(e)[:200])
+
+
 def run(ctx):
     members, configs, alone = build(ctx.thorough)
     ctx.rec.notes["bounds"] = {"configs": [c[0] for c in configs],
@@ -247,6 +348,7 @@ def run(ctx):
             ctx.rec.violation("C13:pairing-not-loadable", spec=spec, error=parts)
     ctx.parallel(worker, members, configs, alone, ctx.thorough, ctx.seed)
     structural_checks(ctx, members, alone)
+    prefix_checks(ctx)
     ctx.rec.counts["states"] = len(ctx.rec.states)
 
 
